@@ -32,7 +32,7 @@ NOT_APPLICABLE = {
 PROPS = {
     "S00": {"quick_runs": 2000, "thorough_runs": 20000, "seed": 100001, "claimed": False},
     "C01": {
-        "quick_runs": 5000, "thorough_runs": 300000, "seed": 1000001,
+        "quick_runs": 20000, "thorough_runs": 300000, "seed": 1000001,
         "rule": "C01 programs: task forests of 5-200 nodes; per node a submission API (start_detached(schedule|then), execute, "
                 "detached pika::thread, register_work, register_thread, transfer_just), priority, stack class, worker hint, yields, "
                 "an optional wait for an earlier task, children spawned from inside; roots submitted by main and by 0-2 racing OS "
@@ -40,7 +40,7 @@ PROPS = {
         "required_probes": ["waited_for_other_task", "tasks"],
     },
     "C17": {
-        "quick_runs": 20000, "thorough_runs": 2000000, "seed": 17000001, "chunk": 4096,
+        "quick_runs": 80000, "thorough_runs": 2000000, "seed": 17000001, "chunk": 4096,
         "rule": "C17 programs: 1-4 plain threads x pop_left/pop_right on contiguous_index_queue, push/pop at both ends of the "
                 "lock-free deque (tiny node pools so that nodes are recycled), push/pop/steal through the four scheduler queue "
                 "back-ends; conservation + drain on every run, sequential order in single-thread runs, linearizability check "
@@ -49,7 +49,7 @@ PROPS = {
         "stubbed": ["no pika runtime is started for this property: the containers are driven directly by simulated plain threads"],
     },
     "C02": {
-        "quick_runs": 8000, "thorough_runs": 500000, "seed": 2000001,
+        "quick_runs": 32000, "thorough_runs": 500000, "seed": 2000001,
         "rule": "C02 programs: 1-8 independent waiter/waker pairs over raw agent suspend/resume, condition_variable, semaphore, "
                 "latch, event, thread::join, pika::mutex hand-off and sync_wait from an OS thread; the waiter publishes 'registered' "
                 "(under the facility's lock where there is one), the waker (task or OS thread) wakes only afterwards; focus "
@@ -57,7 +57,7 @@ PROPS = {
         "required_probes": ["mech0", "mech1", "mech5", "mech6"],
     },
     "C10": {
-        "quick_runs": 5000, "thorough_runs": 300000, "seed": 10000001,
+        "quick_runs": 20000, "thorough_runs": 300000, "seed": 10000001,
         "rule": "C10 programs: default pool + 0-2 extra pools (1-3 workers, own policy) created through the resource partitioner; "
                 "2-30 submissions (schedule|then, execute, transfer_just, continues_on between pools, bulk, hinted tasks, "
                 "std_thread_scheduler) from main, from tasks and from OS threads; every callable records pool, worker and "
@@ -65,14 +65,14 @@ PROPS = {
         "required_probes": ["continues_on", "bulk", "std_thread", "hinted_phase_on_static_pool"],
     },
     "C11": {
-        "quick_runs": 5000, "thorough_runs": 300000, "seed": 11000001,
+        "quick_runs": 20000, "thorough_runs": 300000, "seed": 11000001,
         "rule": "C11 programs: bulk(sender, n, f) on the pool scheduler for n in {0,1,2,w-1,w,w+1,4w+-1,8w+-1,16w,2^k+-1, random <= 5000}, "
                 "shape types int/unsigned/long/size_t/long long (short shapes do not compile on the scheduler path), predecessor via transfer_just / schedule+let_value / just+continues_on "
                 "(values: an integer and a move-only token), 0-3 throwing indices, hints and priorities, a yielding index.",
         "required_probes": ["bulk.n0", "bulk.value", "bulk.error", "bulk.type4", "bulk.pred2"],
     },
     "C19": {
-        "quick_runs": 4000, "thorough_runs": 250000, "seed": 19000001,
+        "quick_runs": 16000, "thorough_runs": 250000, "seed": 19000001,
         "rule": "C19 histories: default pool + victim pool (2-5 workers, any policy, elasticity on; a control sub-workload without "
                 "elasticity) x suspend/resume of single processing units and of the whole pool issued from tasks of the other pool "
                 "and from OS threads, concurrently with hinted and unhinted submissions and yielding tasks; refused operations "
@@ -80,7 +80,7 @@ PROPS = {
         "required_probes": ["suspend_pu", "resume_pu", "suspend_pool", "resume_pool", "refused.no_elasticity", "refused.self_suspend", "tasks"],
     },
     "C12": {
-        "quick_runs": 4000, "thorough_runs": 250000, "seed": 12000001,
+        "quick_runs": 16000, "thorough_runs": 250000, "seed": 12000001,
         "rule": "C12 programs: 3-60 canary tasks in waves (so that thread objects and stacks are recycled) over the four stack classes "
                 "with drawn sizes (guard pages on/off); each recurses to a drawn fraction of its usable stack filling every frame with a "
                 "pattern, keeps integer and floating point locals and task-local data live across 0-5 yields at the deepest point, "
@@ -88,7 +88,7 @@ PROPS = {
         "required_probes": ["resumed_on_another_worker", "left_interruption_disabled", "canary_tasks"],
     },
     "C20": {
-        "quick_runs": 4000, "thorough_runs": 250000, "seed": 20000001,
+        "quick_runs": 16000, "thorough_runs": 250000, "seed": 20000001,
         "rule": "C20 programs: all 32 completion modes (handler method x inline request x inline completion x high priority), with "
                 "and without the dedicated polling pool, 1-24 outstanding self-addressed MPI_Irecv/MPI_Isend pairs (1 B - 4 KiB, "
                 "per-message pattern) and MPI_Ibcast through transform_mpi in 1-3 batches, each inside its own enable_polling scope "
@@ -99,7 +99,7 @@ PROPS = {
                     "the real libmpi is loaded but never initialised"],
     },
     "C13": {
-        "quick_runs": 6000, "thorough_runs": 400000, "seed": 13000001,
+        "quick_runs": 24000, "thorough_runs": 400000, "seed": 13000001,
         "kf_subs": {"kf_shared_priority": 32, "kf_yield_noexcept": 16},
         "rule": "C13 programs: 1-7 threads with bodies {return, yield k, block, spawn+join child, interruptible loop, stop-token "
                 "loop} x controls {join, detach, interrupt+join, ~jthread, request_stop+join, double join, self join, move+join} "
@@ -107,14 +107,14 @@ PROPS = {
         "required_probes": ["join.target_already_done", "join.target_running", "interrupted", "stop_observed", "double_join", "self_join", "detach"],
     },
     "C14": {
-        "quick_runs": 8000, "thorough_runs": 500000, "seed": 14000001,
+        "quick_runs": 32000, "thorough_runs": 500000, "seed": 14000001,
         "rule": "C14 histories: 2-5 parties (tasks / OS threads) x stop_source copy/move/copy-assign/swap/destroy, token checks, "
                 "stop_callback construct (before/after stop) and destroy (other thread, inside own callback, inside another "
                 "callback), racing request_stop over two stop states; one sub-workload uses plain OS threads only.",
         "required_probes": ["request_stop.won", "request_stop.lost", "cb.ran_in_constructor", "cb.destroy_self", "cb.dtor_waited_for_running_callback"],
     },
     "C03": {
-        "quick_runs": 15000, "thorough_runs": 1500000, "seed": 3000001, "chunk": 4096,
+        "quick_runs": 60000, "thorough_runs": 1500000, "seed": 3000001, "chunk": 4096,
         "rule": "C03 programs: one of 15 pipeline shapes without scheduler (then, let_value, let_error, when_all 2/3 arms, "
                 "when_all_vector, split with 1-3 consumers, ensure_started (also dropped), drop_value, split_tuple, drop_operation_state, "
                 "unique_any_sender, any_sender copies, unpack, when_all over split copies) or 8 shapes on a 1-4 worker runtime "
@@ -124,7 +124,7 @@ PROPS = {
         "required_probes": ["pure.shape6", "pure.shape7", "pure.shape9", "sched.shape1", "consumed_by_sync_wait", "split.consumers"],
     },
     "C04": {
-        "quick_runs": 20000, "thorough_runs": 2000000, "seed": 4000001, "chunk": 4096,
+        "quick_runs": 80000, "thorough_runs": 2000000, "seed": 4000001, "chunk": 4096,
         "rule": "C04 programs: 2-12 read/readwrite requests taken in order from async_rw_mutex<Val> / async_rw_mutex<void>; each "
                 "sender is started, dropped unstarted or (reads) copied and started twice on one of 1-4 threads after a drawn delay; "
                 "read wrappers are copied 0-2 times; every copy is released by a drawn thread after a drawn delay; the mutex "
@@ -133,21 +133,21 @@ PROPS = {
         "stubbed": ["no pika runtime is started for this property: the header-only mutex is driven by simulated plain threads"],
     },
     "C05": {
-        "quick_runs": 3000, "thorough_runs": 150000, "seed": 5000001,
+        "quick_runs": 12000, "thorough_runs": 150000, "seed": 5000001,
         "rule": "C05 histories: up to 3 incarnations (own worker count/policy, with or without entry function) x submit from main, "
                 "from tasks and from OS threads (also racing with wait/suspend), wait, suspend/resume (incl. redundant calls), "
                 "finalize from main or a task, stop, refused misuse calls from tasks; invalid steps are skipped by a reference state model.",
         "required_probes": ["start", "stop", "wait", "suspend", "resume", "misuse_refused", "racing_submitter"],
     },
     "C06": {
-        "quick_runs": 6000, "thorough_runs": 400000, "seed": 6000001,
+        "quick_runs": 24000, "thorough_runs": 400000, "seed": 6000001,
         "rule": "C06 programs: 2-8 parties x lock/try_lock/try_lock_for/try_lock_until sections (yields, sleeps and migrations "
                 "inside), nested recursive locking, re-lock and foreign-unlock misuse, over pika::mutex, timed_mutex, "
                 "recursive_mutex (tasks) and both spinlocks (tasks and OS threads).",
         "required_probes": ["timed_lock.true", "timed_lock.false", "misuse.relock", "misuse.foreign_unlock", "recursive.nested", "try_lock.false"],
     },
     "C07": {
-        "quick_runs": 6000, "thorough_runs": 400000, "seed": 7000001,
+        "quick_runs": 24000, "thorough_runs": 400000, "seed": 7000001,
         "kf_subs": {"kf_timed_os": 48},
         "rule": "C07 programs: 2-6 parties (tasks / OS threads) x wait, wait(pred), wait_for, wait_until(pred), stop-token waits, "
                 "notify_one/notify_all (with or without the user lock held), request_stop over condition_variable and "
@@ -155,14 +155,14 @@ PROPS = {
         "required_probes": ["timed.notified_before_deadline", "wait_for.timeout", "wait_for.no_timeout"],
     },
     "C09": {
-        "quick_runs": 6000, "thorough_runs": 400000, "seed": 9000001,
+        "quick_runs": 24000, "thorough_runs": 400000, "seed": 9000001,
         "rule": "C09 programs: latch (count 0-8, count_down(n)/arrive_and_wait/wait/try_wait, late waiters), barrier (1-9 "
                 "participants incl. more than workers, 1-5 phases, arrive+wait(token)/arrive_and_wait/arrive_and_drop, counting "
                 "completion functor), event (set/wait), call_once (2-6 callers, first k attempts throw); tasks and OS threads.",
         "required_probes": ["latch.wait", "latch.arrive_and_wait", "barrier.drop", "barrier.arrive_then_wait", "event.wait", "once.throw"],
     },
     "C08": {
-        "quick_runs": 6000, "thorough_runs": 400000, "seed": 8000001,
+        "quick_runs": 24000, "thorough_runs": 400000, "seed": 8000001,
         "kf_subs": {"kf_timed_os": 48},
         "rule": "C08 programs: 2-6 parties (pika tasks / OS threads) x release(n)/acquire/try_acquire/try_acquire_for/until "
                 "on counting_semaphore, hold-sections on binary_semaphore, a sole timed acquirer racing one release, and "
